@@ -2,7 +2,7 @@
 // controlled scheduler (harness/sched.cc).  One forked child per case.
 // Case format:
 //   case <id> kind=bq|bbq|latch [cap=N] [count=N] [thr=spawn|muduo] sched=<source> spur=<k> ...
-//   <program of T1>      ops separated by ';' :  put <v> | take | drain | size | cd | wait | count
+//   <program of T1>      ops separated by ';' :  put <v> | take | drain | size | empty | full | capacity (bbq) | cd | wait | count
 //   <program of T2> ...
 //   end
 // Output: "case <id>", the scheduler's lines (t = trace, c = choice, e = event log: "e T<i> r <k>
@@ -101,6 +101,9 @@ static void runProgram(const std::vector<Op>& prog)
       size_t n = g_bq ? g_bq->size() : g_bbq->size();
       sched::log("r %zu size %zu", k, n);
     }
+    else if (o == "empty") { bool b = g_bbq->empty(); sched::log("r %zu empty %d", k, b ? 1 : 0); }
+    else if (o == "full") { bool b = g_bbq->full(); sched::log("r %zu full %d", k, b ? 1 : 0); }
+    else if (o == "capacity") { size_t n = g_bbq->capacity(); sched::log("r %zu capacity %zu", k, n); }
     else if (o == "cd") { g_latch->countDown(); sched::log("r %zu cd -", k); }
     else if (o == "wait") { g_latch->wait(); sched::log("r %zu wait -", k); }
     else if (o == "count") { int c = g_latch->getCount(); sched::log("r %zu count %d", k, c); }
